@@ -388,11 +388,16 @@ func (c *verifClient) verifChooseRemote() {
 		return
 	}
 	c.remoteChosen = true
-	switch verifChoice("remoteKind", 2) {
+	switch verifChoice("remoteKind", 3) {
 	case 0:
 		c.remoteID = "not-a-number"
 	case 1:
 		c.remoteID = verifID(verifU64("remoteIndex"))
+	case 2:
+		// a fixed numeric id left by another cluster: below, among or above the indexes of this
+		// node (which stay symbolic). Concrete text, so that code which parses the id runs on it
+		// exactly.
+		c.remoteID = verifPick("remoteFixed", "1", "5000", "18446744073709551615")
 	}
 }
 
